@@ -710,6 +710,29 @@ def listenerError (msgid methodname : Str) (code : Nat) (desc : Str) : Xml :=
   listenerEnvelope msgid (E "EXPMETHODRESPONSE" [("NAME".toList, methodname)]
     [E "ERROR" [("CODE".toList, natToStr code), ("DESCRIPTION".toList, desc)] []])
 
+/-- the CIM-XML level decision of `ListenerRequestHandler.do_POST` after `parse_export_request` succeeded:
+    `params` = the parameter names with a flag "value is a CIMInstance" (names are distinct: duplicates were refused
+    with HTTP 400 before), `queueFull` = `_handle_indication` raised queue.Full; `desc` = the text of the error
+    description (`_format(...)` of the offending names / value: ASCII by construction).
+    mirrors pywbem/_listener.py: ListenerRequestHandler.do_POST (the part after the header checks and the parse) -/
+def listenerRespond (msgid methodname : Str) (params : List (Str × Bool)) (queueFull : Bool) (desc : Str) : Xml :=
+  if methodname = "ExportIndication".toList then
+    match params with
+    | [(n, isInst)] =>
+      if n = "NewIndication".toList then
+        if isInst then
+          if queueFull then listenerError msgid methodname 1 desc            -- CIM_ERR_FAILED
+          else listenerSuccess msgid methodname
+        else listenerError msgid methodname 4 desc                           -- CIM_ERR_INVALID_PARAMETER
+      else listenerError msgid methodname 4 desc
+    | _ => listenerError msgid methodname 4 desc
+  else listenerError msgid methodname 7 desc                                 -- CIM_ERR_NOT_SUPPORTED
+
+/-- ID attribute of the MESSAGE element -/
+def bodyMessageId : Xml → Option Str
+  | .elem _ _ [.elem _ as _] => Xml.attr as "ID".toList
+  | _ => none
+
 /-! ### what the theorems read off a request -/
 
 /-- the (I)METHODCALL / EXPMETHODCALL element of a request document: CIM / MESSAGE / SIMPLE(EXP)REQ / call -/
